@@ -616,12 +616,109 @@ class Interp:
         return self.models.ite_value(self, f, a, b, node)
 
     def st_With(self, st, frame):
+        suppressed = []
         for item in st.items:
             v = self.eval(item.context_expr, frame)
             entered = self.models.enter_context(self, v, st)
+            if getattr(v, 'suppresses', None):
+                suppressed.extend(v.suppresses)
             if item.optional_vars is not None:
                 self.assign(item.optional_vars, entered, frame, st)
-        self.exec_block(st.body, frame)
+        if not suppressed:
+            self.exec_block(st.body, frame)
+            return
+        try:
+            self.exec_block(st.body, frame)
+        except AbsRaise as r:
+            # contextlib.suppress(E, ...): an exception of one of the named types ends the block silently
+            for x in suppressed:
+                name = x.tname if isinstance(x, ExcType) else (x.name if isinstance(x, ClassVal) else None)
+                if name is None:
+                    self.fail(f'contextlib.suppress of {x!r}', st)
+                if exc_isa(r.exc.tname, name):
+                    self.event('caught', exc=r.exc.tname, handler=st, node=r.node)
+                    return
+            raise
+
+    def st_Match(self, st, frame):
+        subject = self.eval(st.subject, frame)
+        for case in st.cases:
+            binds = {}
+            if not self.match_pattern(case.pattern, subject, binds, frame, st):
+                continue
+            saved = dict(frame.locals)
+            for k, v in binds.items():
+                self.bind(frame, k, v)
+            if case.guard is not None:
+                g = self.truth(self.eval(case.guard, frame), case.guard)
+                if g is False:
+                    frame.locals = saved
+                    continue
+                if g is not True:
+                    self.fail('match guard on an undecided condition', st)
+            self.exec_block(case.body, frame)
+            return
+
+    def match_pattern(self, pat, v, binds, frame, st):
+        """structural pattern matching on interpreter values (PEP 634); -> bool"""
+        if isinstance(pat, ast.MatchAs):
+            if pat.pattern is not None and not self.match_pattern(pat.pattern, v, binds, frame, st):
+                return False
+            if pat.name is not None:
+                binds[pat.name] = v
+            return True
+        if isinstance(pat, ast.MatchOr):
+            return any(self.match_pattern(p, v, binds, frame, st) for p in pat.patterns)
+        if isinstance(pat, ast.MatchSingleton):
+            return v is pat.value
+        if isinstance(pat, ast.MatchValue):
+            r = self.models.compare(self, 'Eq', v, self.eval(pat.value, frame), st)
+            t = self.truth(r, st)
+            if t not in (True, False):
+                self.fail('match value pattern on an undecided comparison', st)
+            return t
+        if isinstance(pat, ast.MatchClass):
+            cls = self.eval(pat.cls, frame)
+            if not self.models.isinstance_abs(self, v, cls, st):
+                return False
+            if pat.patterns:
+                self.fail('positional sub-patterns in a class pattern not modelled', st)
+            for name, sub in zip(pat.kwd_attrs, pat.kwd_patterns):
+                try:
+                    av = self.getattr(v, name, st)
+                except AbsRaise:
+                    return False
+                if not self.match_pattern(sub, av, binds, frame, st):
+                    return False
+            return True
+        if isinstance(pat, ast.MatchSequence):
+            if not isinstance(v, (list, tuple)):
+                return False
+            stars = [i for i, p in enumerate(pat.patterns) if isinstance(p, ast.MatchStar)]
+            if not stars:
+                return len(v) == len(pat.patterns) and all(self.match_pattern(p, x, binds, frame, st) for p, x in zip(pat.patterns, v))
+            i = stars[0]
+            after = len(pat.patterns) - i - 1
+            if len(v) < len(pat.patterns) - 1:
+                return False
+            ok = all(self.match_pattern(p, x, binds, frame, st) for p, x in zip(pat.patterns[:i], v[:i]))
+            ok = ok and all(self.match_pattern(p, x, binds, frame, st) for p, x in zip(pat.patterns[i + 1:], v[len(v) - after:]))
+            if ok and pat.patterns[i].name is not None:
+                binds[pat.patterns[i].name] = list(v[i:len(v) - after])
+            return ok
+        if isinstance(pat, ast.MatchMapping):
+            data = getattr(v, 'dict_data', v)
+            if not isinstance(data, dict):
+                return False
+            for k, sub in zip(pat.keys, pat.patterns):
+                key = self.eval(k, frame)
+                if key not in data or not self.match_pattern(sub, data[key], binds, frame, st):
+                    return False
+            if pat.rest is not None:
+                used = [self.eval(k, frame) for k in pat.keys]
+                binds[pat.rest] = {k: x for k, x in data.items() if k not in used}
+            return True
+        self.fail(f'match pattern {type(pat).__name__} not modelled', st)
 
     def st_Raise(self, st, frame):
         if st.exc is None:
@@ -1099,6 +1196,8 @@ class Interp:
             return self.call_function(fn.func, [fn.self_val] + list(args), kwargs, node)
         if isinstance(fn, ClassVal):
             return self.instantiate(fn, args, kwargs, node)
+        if type(fn).__name__ == 'PartialVal':
+            return self.call(fn.func, list(fn.args) + list(args), dict(fn.keywords, **kwargs), node, frame)
         return self.models.call(self, fn, args, kwargs, node, frame)
 
     def instantiate(self, cls, args, kwargs, node):
